@@ -117,7 +117,7 @@ theorem symp_inSpan_zero {n : ℕ} {rows : List (List Nat)} {l s : List Nat}
     (hcomm : ∀ g ∈ rows, symp l g = 0) (hs : InSpan (2 * n) rows s) : symp l s = 0 := by
   have hslen : s.length = 2 * n := by
     obtain ⟨sel, _, rfl⟩ := hs
-    exact xorCombo_length _ _ _ hrows
+    exact xorCombo_length_alg _ _ _ hrows
   rw [symp_eq_zero_iff hl hslen]
   apply sympForm_right_zero_of_mem_rowSpan _ _ (mem_rowSpan_of_inSpan hrows hs)
   intro r hr
@@ -126,7 +126,7 @@ theorem symp_inSpan_zero {n : ℕ} {rows : List (List Nat)} {l s : List Nat}
 theorem inSpan_length {m : ℕ} {rows : List (List Nat)} {s : List Nat}
     (hrows : ∀ r ∈ rows, r.length = m) (hs : InSpan m rows s) : s.length = m := by
   obtain ⟨sel, _, rfl⟩ := hs
-  exact xorCombo_length _ _ _ hrows
+  exact xorCombo_length_alg _ _ _ hrows
 
 theorem inSpan_binary {m : ℕ} {rows : List (List Nat)} {s : List Nat}
     (hs : InSpan m rows s) : ∀ x ∈ s, x < 2 := by
